@@ -51,28 +51,28 @@ mod kani_c10 {
         if j < n { assert!(u.payload()[j] == pay[j], "C10.frame: payload emitted unmodified"); }
     }
 
-    #[kani::proof] #[kani::unwind(44)]
-    fn c10_dispatch_ip_tcp_v4_wellformed() {
+    /// one harness per option combination (the option list is what has to be terminated and padded)
+    fn tcp_wellformed(mss: bool, ws: bool, sackp: bool, ts: bool) {
         let mtu = any_mtu();
         let mut cx = ctx(mtu);
         let mut frag = Fragmenter::new();
-        let pay: [u8; P] = kani::any();
+        let pay: [u8; 2] = kani::any();
         let n: usize = kani::any();
-        kani::assume(n <= P); // tag: range
+        kani::assume(n <= 2); // tag: range
         let (src, dst) = (Ipv4Address::from_bits(kani::any()), Ipv4Address::from_bits(kani::any()));
         kani::assume(!dst.is_unspecified()); // tag: pre
         let tcp = TcpRepr {
             src_port: kani::any(), dst_port: kani::any(),
             control: match kani::any::<u8>() % 5 { 0 => TcpControl::None, 1 => TcpControl::Psh, 2 => TcpControl::Syn, 3 => TcpControl::Fin, _ => TcpControl::Rst },
             seq_number: TcpSeqNumber(kani::any()), ack_number: if kani::any() { Some(TcpSeqNumber(kani::any())) } else { None },
-            window_len: kani::any(), window_scale: if kani::any() { Some(kani::any()) } else { None }, max_seg_size: if kani::any() { Some(kani::any()) } else { None },
-            sack_permitted: kani::any(), sack_ranges: [None, None, None], timestamp: if kani::any() { Some(TcpTimestampRepr::new(kani::any(), kani::any())) } else { None }, payload: &pay[..n],
+            window_len: kani::any(), window_scale: if ws { let x: u8 = kani::any(); kani::assume(x <= 14); Some(x) } else { None }, max_seg_size: if mss { Some(kani::any()) } else { None }, // tag: pre
+            sack_permitted: sackp, sack_ranges: [None, None, None], timestamp: if ts { Some(TcpTimestampRepr::new(kani::any(), kani::any())) } else { None }, payload: &pay[..n],
         };
         kani::assume(tcp.src_port != 0 && tcp.dst_port != 0); // tag: pre
         let ip = Ipv4Repr { src_addr: src, dst_addr: dst, next_header: IpProtocol::Tcp, payload_len: tcp.buffer_len(), hop_limit: 64 };
         let (mut buf, mut len, mut calls): ([u8; FB], usize, u8) = (kani::any(), 0, 0);
         let r = cx.dispatch_ip(KTx { buf: &mut buf, len: &mut len, calls: &mut calls }, PacketMeta::default(), Packet::new_ipv4(ip, IpPayload::Tcp(tcp)), &mut frag);
-        kani::cover!(calls == 1 && tcp.timestamp.is_some() && tcp.max_seg_size.is_some(), "a segment with options is handed to the device");
+        kani::cover!(calls == 1, "a segment is handed to the device");
         assert!(r.is_ok() && calls == 1);
         assert!(len == 20 + tcp.buffer_len() && len <= mtu, "C10.frame: frame length = header lengths + payload, within the MTU");
         let p = Ipv4Packet::new_checked(&buf[..len]).unwrap();
@@ -85,6 +85,10 @@ mod kani_c10 {
         assert!(b.src_port == tcp.src_port && b.dst_port == tcp.dst_port && b.control == tcp.control && b.seq_number == tcp.seq_number && b.ack_number == tcp.ack_number && b.window_len == tcp.window_len
                 && b.max_seg_size == tcp.max_seg_size && b.window_scale == tcp.window_scale && b.sack_permitted == tcp.sack_permitted && b.timestamp == tcp.timestamp && b.payload.len() == n, "C10.frame: every field survives");
     }
+    #[kani::proof] #[kani::unwind(16)] fn c10_dispatch_ip_tcp_v4_wellformed_noopt() { tcp_wellformed(false, false, false, false) }
+    #[kani::proof] #[kani::unwind(16)] fn c10_dispatch_ip_tcp_v4_wellformed_syn_opts() { tcp_wellformed(true, true, true, false) }
+    #[kani::proof] #[kani::unwind(16)] fn c10_dispatch_ip_tcp_v4_wellformed_ts() { tcp_wellformed(false, false, false, true) }
+    #[kani::proof] #[kani::unwind(24)] fn c10_dispatch_ip_tcp_v4_wellformed_all() { tcp_wellformed(true, true, true, true) }
 
     /// frames larger than the IP MTU are never handed to the device whole (fragmentation is C12; without it they are dropped)
     #[kani::proof] #[kani::unwind(12)]
@@ -95,7 +99,7 @@ mod kani_c10 {
         let mut frag = Fragmenter::new();
         let pay = [0u8; FB];
         let n: usize = kani::any();
-        kani::assume(n + 28 <= FB); // tag: range
+        kani::assume(n <= FB - 28); // tag: range
         let dst = Ipv4Address::from_bits(kani::any());
         kani::assume(!dst.is_unspecified()); // tag: pre
         let ip = Ipv4Repr { src_addr: Ipv4Address::from_bits(kani::any()), dst_addr: dst, next_header: IpProtocol::Udp, payload_len: 8 + n, hop_limit: 64 };
